@@ -99,7 +99,7 @@ pub fn lockstep_game(text: &str, sym: Sym, rng: &mut Rng, rep: &mut Report) {
     lockstep_from(start, sym, Policy::Uniform, n, Some(script), rng, rep)
 }
 
-fn lockstep_from(d1: &str, sym: Sym, policy: Policy, plies: usize, script: Option<Vec<Action>>, rng: &mut Rng, rep: &mut Report) {
+pub fn lockstep_from(d1: &str, sym: Sym, policy: Policy, plies: usize, script: Option<Vec<Action>>, rng: &mut Rng, rep: &mut Report) {
     let Some(g1) = Game::parse(d1) else { return };
     let b = arr(g1.state.piece_board());
     let side = g1.state.is_p1_turn_to_move();
